@@ -76,7 +76,11 @@ func vrtHarness_C01_tdc() {
 			if i == 1 {
 				// arbitrary many queries came and went: the counter is anywhere
 				dc.queueMu.Lock()
-				vrtSetCounter(&dc.nextQid, vrtU16(), fromTop)
+				top2 := fromTop
+				if vrtParam("independent_wrap", 0) == 1 {
+					top2 = vrtChoice(2) == 1 // thorough: the second position is chosen independently of the first
+				}
+				vrtSetCounter(&dc.nextQid, vrtU16(), top2)
 				dc.queueMu.Unlock()
 			}
 			ex, _ := dc.ReserveNewQuery()
